@@ -56,14 +56,18 @@ def c_mutants():
 def scratch(edit=None, patch=None):
     tmp = tempfile.mkdtemp(prefix="verif-orc-")
     subprocess.run(["rsync", "-a", "--exclude", ".git", "/repo/src", "/repo/include", tmp + "/"], check=True)
-    if edit:
-        f, old, new = edit
-        s = open(os.path.join(tmp, f)).read()
-        assert s.count(old) == 1, (f, old)
-        open(os.path.join(tmp, f), "w").write(s.replace(old, new))
-    if patch:
-        r = subprocess.run(["patch", "-p1", "-s", "-d", tmp, "-i", os.path.abspath(patch)], capture_output=True, text=True)
-        assert r.returncode == 0, r.stdout
+    try:
+        if edit:
+            f, old, new = edit
+            s = open(os.path.join(tmp, f)).read()
+            assert s.count(old) == 1, (f, old)
+            open(os.path.join(tmp, f), "w").write(s.replace(old, new))
+        if patch:
+            r = subprocess.run(["patch", "-p1", "-s", "-d", tmp, "-i", os.path.abspath(patch)], capture_output=True, text=True)
+            assert r.returncode == 0, r.stdout
+    except AssertionError:
+        shutil.rmtree(tmp, ignore_errors=True)          # nothing may stay behind in /tmp
+        raise
     return tmp
 
 
